@@ -93,6 +93,38 @@ func vCheckScript(es []Edit[int], lhs, rhs []int, wantKept int) {
 	}
 }
 
+// VH_slice_EditScriptAlias: the two arguments are views of one array (a slice
+// and a truncation or in-place extension of it, or two windows at different
+// offsets): same obligations as for unrelated arguments.
+func VH_slice_EditScriptAlias() {
+	nl, nr, off := vCase("nl"), vCase("nr"), vCase("off")
+	buf := vMkInts(max(nl, nr+off))
+	lhs, rhs := buf[:nl], buf[off:off+nr]
+	b0 := append([]int{}, buf...)
+	es := EditScript(lhs, rhs)
+	vCover("script-alias")
+	want := 0
+	if len(es) > 0 {
+		want = vRefLCSLen(lhs, rhs)
+	}
+	vCheckScript(es, lhs, rhs, want)
+	same := nl == nr
+	if same {
+		for i := range lhs {
+			if lhs[i] != rhs[i] {
+				same = false
+				break
+			}
+		}
+	}
+	vAssert((len(es) == 0) == same, "script is empty exactly when lhs equals rhs (aliased arguments)")
+	for i := range buf {
+		vAssert(buf[i] == b0[i], "the shared array is not modified")
+	}
+	got := LCS(lhs, rhs)
+	vAssert(len(got) == vRefLCSLen(lhs, rhs), "LCS of aliased arguments has optimal length")
+}
+
 func VH_slice_EditScript() {
 	nl, nr := vCase("nl"), vCase("nr")
 	lhs, rhs := vMkInts(nl), vMkInts(nr)
